@@ -161,11 +161,14 @@ func cmdRun(args []string) int {
 	fmt.Sscanf(os.Getenv("VERIF_SEED"), "%d", &seed)
 	t0 := time.Now()
 
-	dirs, err := harnessDirsFor(*prop)
 	workDir := filepath.Join(verifRoot, ".work", fmt.Sprintf("%s-%s-%d", *prop, *tier, os.Getpid()))
+	defer os.RemoveAll(workDir)
+	loadAttempt := 0
+reload:
+	loadAttempt++
+	dirs, err := harnessDirsFor(*prop)
 	os.RemoveAll(workDir)
 	os.MkdirAll(workDir, 0o755)
-	defer os.RemoveAll(workDir)
 	extra := map[string]string{}
 	var genSkipped []string
 	if *prop == "C08" || *prop == "C09" {
@@ -210,6 +213,20 @@ func cmdRun(args []string) int {
 	}
 	ld, err := loadProgram(rels, ov)
 	if err != nil {
+		// harness files that do not compile against this tree are dropped and the load is repeated: the
+		// remaining harnesses still run (and may report violations); the run cannot end "held" any more
+		if broken := brokenHarnessFiles(err.Error()); len(broken) > 0 && loadAttempt < 6 {
+			for _, f := range broken {
+				droppedHarnessFiles[f] = true
+				fmt.Printf("HARNESS-DROPPED %s does not compile against the tree under analysis:\n", f)
+			}
+			for _, line := range strings.Split(err.Error(), "\n") {
+				if strings.Contains(line, "zz_verif_") {
+					fmt.Printf("    %s\n", line)
+				}
+			}
+			goto reload
+		}
 		fmt.Printf("ENGINE-ERROR load: %v\n", err)
 		return 2
 	}
@@ -509,6 +526,10 @@ func cmdRun(args []string) int {
 		if exit == 0 {
 			exit = 2
 		}
+	}
+	if len(droppedHarnessFiles) > 0 && exit == 0 {
+		fmt.Printf("[%s] %d harness file(s) do not compile against the tree under analysis: their obligations were not checked (exit 2)\n", *prop, len(droppedHarnessFiles))
+		exit = 2
 	}
 	if unconfirmed > 0 && exit == 0 {
 		// a violation the engine found for some interleaving but the native run did not reproduce is not
